@@ -267,6 +267,43 @@ func runC01(c *Ctx) {
 			c.Violate(Finding{Desc: fmt.Sprintf("enforce-policy annotation %q, enforced policy %q", *g.AnnEnforce, pol.Enforce.String()), Key: "annotation", Input: in})
 		}
 	}, func(r *Rng, a *AdmitCase) {
+		// one version in all three modes with different levels (enforce below warn / audit and the other way round), and pods on
+		// which the levels disagree in every possible way — including pods the API server would refuse (os=windows with Linux-only
+		// fields), for which restricted does NOT imply baseline: the verdict is the ENFORCE policy's, whatever the others say
+		if a.Obj.Pod != nil && a.Syn == false && r.Chance(1, 5) {
+			v := pick(r, []string{"latest", "v1.32", "v1.29", "v1.26", "v1.25", "v1.24", "v1.22", "v1.19"})
+			lv := func() string { return pick(r, []string{"baseline", "restricted", "baseline", "restricted", "privileged"}) }
+			a.NSLabels = map[string]string{api.EnforceLevelLabel: lv(), api.EnforceVersionLabel: v, api.AuditLevelLabel: lv(), api.AuditVersionLabel: v, api.WarnLevelLabel: lv(), api.WarnVersionLabel: v}
+			base := versionSensitivePod(r, a.Obj.Pod.Name)
+			base.Namespace = a.Obj.Pod.Namespace
+			sc := base.Spec.Containers[0].SecurityContext
+			if sc == nil {
+				sc = &corev1.SecurityContext{}
+				base.Spec.Containers[0].SecurityContext = sc
+			}
+			switch r.Intn(6) {
+			case 0:
+				base.Spec.OS = &corev1.PodOS{Name: "windows"}
+				sc.Capabilities = &corev1.Capabilities{Add: []corev1.Capability{"NET_ADMIN"}, Drop: []corev1.Capability{"ALL"}}
+			case 1:
+				base.Spec.OS = &corev1.PodOS{Name: "windows"}
+				sc.SeccompProfile = &corev1.SeccompProfile{Type: "Unconfined"}
+			case 2:
+				base.Spec.OS = &corev1.PodOS{Name: "windows"}
+				sc.AllowPrivilegeEscalation = bp(true)
+			case 3:
+				sc.Capabilities = &corev1.Capabilities{Add: []corev1.Capability{"CHOWN"}, Drop: []corev1.Capability{"ALL"}} // baseline yes, restricted no
+			case 4:
+				base.Spec.HostNetwork = true // neither
+			}
+			a.Obj.Pod = base
+			if a.Old.Pod != nil {
+				old := base.DeepCopy()
+				old.Spec.Containers[0].Image = "previous"
+				a.Old.Pod = old
+			}
+			a.Tags = append(a.Tags, "c01.sameVersionDifferentLevels")
+		}
 		// the model judges with the Standard's own evaluator whenever the pods involved are API-valid
 		ok := a.Obj.Pod == nil || apiValid(&a.Obj.Pod.Spec)
 		a.StdOracle = ok && !a.Syn
